@@ -384,7 +384,7 @@ def run(tier, seed, shard, nshards):
                     ck.check_error(tag)
         except Violation as v:
             s.violations.append(v.payload)
-        n = 600 if tier == "quick" else 6000
+        n = 1800 if tier == "quick" else 6000
         hyp_run(test, case(), n, shard_seed(seed, shard, "c20"), s)
     finally:
         ck.close()
